@@ -16,7 +16,7 @@ PROP = Property(
                   "harness/config_drv.c (hermetic files/env via --wrap=fopen,gethostname,ares_os_if_*; allocation counting), ocaml/config_drv.ml, gen/cfggen.py",
                   "clang 14 ASan/UBSan/LSan",
                   "grammar of junk lines: coq/Config/Spec.v (junk_class_resolv, junk_db_line, junk_localdomain, junk_res_options), coq/Config/HostsSpec.v (junk_hosts_class)"],
-    assumptions=["parsers are hand-modelled (coq/Config/Lines.v, Inet.v); the tie to the C code is the correspondence run",
+    assumptions=["parsers are hand-modelled (coq/Config/Lines.v, Hosts.v, Inet.v); the tie to the C code is the correspondence run",
                  "address parsing is a parameter of the theorems (netfns); the extracted model instantiates it with coq/Config/Inet.v, compared byte for byte with ares_inet_pton/ntop on every generated address",
                  "dns:// URIs are modelled for scheme://host[:port][?tcpport=N] only; other URIs are classed unmodelled-uri (robustness only)",
                  "memory allocation is assumed to succeed (ENOMEM paths not modelled)"],
